@@ -292,12 +292,18 @@ func TestVerifC27(t *testing.T) {
 	rep := vfNewReport("C27", "generated write programs: 1-3 requests of 1-5 statements (single and multi-row INSERT, UPDATE by id / range / of the rowid, DELETE by id / range, statements failing before or after touching rows, reads, DDL) over t1 (rowid alias; INTEGER, REAL, TEXT, BLOB, untyped columns with extremes, non-ASCII, empty and NULL values) and t2 (plain rowid table), transaction on/off, row-ids-only on/off, table filter none / ^t1$ / ^t2$ / matching nothing; a request is non-trivial when it changes at least one row; distinct by the SQL of the request")
 	defer rep.Write()
 	r := vfNewRng(27)
-	cases := vfScale(120, 6000)
+	cases := vfScale(120, 15000)
 	var segOps, segImpl [][]string
 
 	for c := 0; c < cases; c++ {
 		real, closeReal := c27Open()
 		shadow, closeShadow := c27Open()
+		// the shadow tells whether a statement committed a write transaction (SQLite fires the commit
+		// hook for those only - e.g. not for CREATE TABLE IF NOT EXISTS of an existing table)
+		shadowCommits := 0
+		if err := shadow.RegisterCommitHook(func() bool { shadowCommits++; return true }); err != nil {
+			t.Fatal(err)
+		}
 		idsOnly := r.Chance(30)
 		filter := []string{"*", "*", "t1", "t2", "-"}[r.Intn(5)]
 		var re *regexp.Regexp
@@ -354,6 +360,7 @@ func TestVerifC27(t *testing.T) {
 				sqls = append(sqls, s.sql)
 				req.Statements = append(req.Statements, &command.Statement{Sql: s.sql})
 				before := c27Snapshot(shadow, s.table)
+				commitsBefore := shadowCommits
 				res, err := shadow.ExecuteStringStmt(s.sql)
 				failed := err != nil || res[0].GetError() != ""
 				if failed != s.fails {
@@ -367,7 +374,7 @@ func TestVerifC27(t *testing.T) {
 					}
 				} else {
 					chs = c27Diff(s.table, before, c27Snapshot(shadow, s.table), s.moved)
-					if failedAfterRows && len(chs) > 0 && !tx {
+					if failedAfterRows && !tx && shadowCommits > commitsBefore {
 						commitAfterFailure = true
 					}
 				}
@@ -379,8 +386,8 @@ func TestVerifC27(t *testing.T) {
 					toks = append(toks, fmt.Sprintf("%s#%d", chs[k].table, changeID))
 				}
 				kind := "ok"
-				if s.kind == "read" {
-					kind = "read"
+				if s.kind == "read" || (!tx && !failed && len(chs) == 0 && shadowCommits == commitsBefore) {
+					kind = "read" // no write transaction was committed
 				}
 				if failed {
 					kind = "fail"
@@ -527,6 +534,7 @@ func TestVerifC27(t *testing.T) {
 		}
 		real.RegisterPreUpdateHook(nil, nil, false)
 		real.RegisterCommitHook(nil)
+		shadow.RegisterCommitHook(nil)
 		closeReal()
 		closeShadow()
 		segOps = append(segOps, ops)
